@@ -218,21 +218,32 @@ def _expect_violation(cfg, inv, timeout=900):
 
 
 def vouch_model(tier, out):
-    """Exhaustive runs of the composition (in a thread beside the driver); results / exception into out."""
+    """Exhaustive runs of the composition that must pass (in a thread beside the driver); results / exception into out."""
     try:
         res = [vf.tlc_exhaustive(PID, "MC_Vouch", "MC_Vouch.cfg", timeout=600)]
-        _expect_violation("MC_Vouch_late_window.cfg", "EnvWindowHolds")
-        _expect_violation("MC_Vouch_race.cfg", "CancelledNeverRuns")
         if tier == "thorough":
             res.append(vf.tlc_exhaustive(PID, "MC_Vouch", "MC_Vouch_big.cfg", timeout=1500))
             res.append(vf.tlc_exhaustive(PID, "MC_Vouch", "MC_Vouch_fail.cfg", timeout=900))
-            res.append(vf.tlc_exhaustive(PID, "MC_Vouch", "MC_Vouch_noreduce.cfg", timeout=1500))
+        out["mc"] = res
+    except BaseException as e:      # re-raised by the caller
+        out["err"] = e
+
+
+def vouch_model_neg(tier, out):
+    """... and those that must violate their invariant (second thread); thorough: also the cross-check without the
+    second group of reductions."""
+    try:
+        res = []
+        _expect_violation("MC_Vouch_late_window.cfg", "EnvWindowHolds")
+        _expect_violation("MC_Vouch_race.cfg", "CancelledNeverRuns")
+        if tier == "thorough":
+            res.append(vf.tlc_exhaustive(PID, "MC_Vouch", "MC_Vouch_noreduce.cfg", workers=4, timeout=1500))
             _expect_violation("MC_Vouch_late_sign.cfg", "NoDoubleSign")
             _expect_violation("MC_Vouch_race_slot.cfg", "SlotOnce")
             _expect_violation("MC_Vouch_race_pending.cfg", "PendingExact")
             _expect_violation("MC_Vouch_byname.cfg", "TableExact")
         out["mc"] = res
-    except BaseException as e:      # re-raised by the caller
+    except BaseException as e:
         out["err"] = e
 
 
@@ -257,18 +268,21 @@ def run_vouch(v, tier):
         "system-level traces: beacon node (duties, attestation data), accounts and signer are scripted; wall-clock chain time with "
         "%d ms slots; the trace specification chooses its clock within the bounds the trace gives (no lateness is judged)" % VOUCH_SLOT_MS,
     ]
-    out = {}
-    th = threading.Thread(target=vouch_model, args=(tier, out))
-    th.start()
+    out, neg = {}, {}
+    ths = [threading.Thread(target=vouch_model, args=(tier, out)), threading.Thread(target=vouch_model_neg, args=(tier, neg))]
+    for th in ths:
+        th.start()
     try:
         sc = vouch_scenarios(tier)
         vouch_conformance(v, sc)
         vouch_race_probe(v)
     finally:
-        th.join()
-    if "err" in out:
-        raise out["err"]
-    for r in out["mc"]:
+        for th in ths:
+            th.join()
+    for o in (out, neg):
+        if "err" in o:
+            raise o["err"]
+    for r in out["mc"] + neg["mc"]:
         v.add_mc(r)
 
 
